@@ -215,15 +215,23 @@ class PeakShaving(Strategy):
             sim_vehicle.schedule = self.fast_charge(v_info, timesteps)
 
         # use surplus for all vehicles currently at charging station, apply power
+        used = 0  # surplus already taken by vehicles beyond their plan
         for v_info in vehicles:
             if v_info["arrival_idx"] > 0:
                 continue
             sim_vehicle = v_info["vehicle"]
-            sim_vehicle.schedule -= min(timesteps[0]["cur_power"], 0)
+            planned = sim_vehicle.schedule
+            surplus = -min(timesteps[0]["cur_power"], 0) - used
+            if surplus > 0:
+                # offer remaining surplus within CS limits, never reduce planned power
+                cs = self.world_state.charging_stations[sim_vehicle.connected_charging_station]
+                sim_vehicle.schedule = max(
+                    util.clamp_power(planned + surplus, sim_vehicle, cs), planned)
             if sim_vehicle.schedule > 0:
                 cs_id = sim_vehicle.connected_charging_station
                 avg_power = self.world_state.vehicles[v_info["vid"]].battery.load(
                     self.interval, target_power=sim_vehicle.schedule)["avg_power"]
+                used += max(avg_power - max(planned, 0), 0)
                 charging_stations[cs_id] = gc.add_load(cs_id, avg_power)
 
         # use batteries to balance power levels
